@@ -78,8 +78,8 @@ theorem generatedLbp_lt_PRE (k : Nat) : generatedLbp k < PrattCore.PRE := by
     simpa using this
 
 /-- **Round trip for the Pratt core with the regenerated table** (partial, see the header): for
-    every tree over the table's binary operators, the prefix operator, the postfix operator and
-    parentheses, every minimum binding power `m` and every continuation `rest` that cannot extend
+    every tree over the table's binary operators, the prefix operator, the postfix forms (`e++`, `e[i]`,
+    `e.name`, `e()`, `e(arg)`) and parentheses, every minimum binding power `m` and every continuation `rest` that cannot extend
     the expression, parsing the minimal-parenthesis rendering returns the tree modulo parentheses
     and leaves exactly `rest`. -/
 theorem pratt_core_roundtrip_partial (e : PrattCore.E) (m : Nat) (rest : List PrattCore.Tok)
@@ -97,5 +97,8 @@ theorem pratt_core_fuel_monotone {f f' m : Nat} {ts : List PrattCore.Tok}
 
 /-! Non-vacuity: `1 + 2 * 3` and `(1 + 2) * 3` over the regenerated table (tests of the statement). -/
 example : PrattCore.stops generatedLbp 0 [] := trivial
+/-- the rendering of `-(f(1)[2].3)` needs no parentheses and parses back: postfix forms bind tighter than prefix -/
+example : PrattCore.rend generatedLbp 0 (.neg (.member (.index (.call1 (.num 0) (.num 1)) (.num 2)) 3)) =
+    [.neg, .num 0, .lp, .num 1, .rp, .lb, .num 2, .rb, .dot 3] := by decide
 
 end BlochVerif.Props.C14
